@@ -387,6 +387,111 @@ m('terminate_pop_loop_single', 'C06', ['H6'], 'terminate_signals terminates only
             // Safety: it's safe to terminate owned signal once
             unsafe { t.terminate() }
         }""")])
+b('send_manually_drop_slot', 'send keeps the blocked value in a ManuallyDrop instead of a MaybeUninit',
+  [(LIB, 'pub fn send(&self, data: T)', """            let mut data = MaybeUninit::new(data);
+            // send directly to the waitlist
+            let sig = Signal::new_sync(KanalPtr::new_from(data.as_mut_ptr()));""", """            let mut data = core::mem::ManuallyDrop::new(data);
+            // send directly to the waitlist
+            let sig = Signal::new_sync(KanalPtr::new_from(&mut *data));"""),
+   (LIB, 'pub fn send(&self, data: T)', """                if needs_drop::<T>() {
+                    unsafe { data.assume_init_drop() }
+                }
+                return Err(SendError::Closed);""", """                if needs_drop::<T>() {
+                    unsafe { core::mem::ManuallyDrop::drop(&mut data) }
+                }
+                return Err(SendError::Closed);""")])
+b('recv_tail_helper', 'recv/recv_timeout share a private helper for the final read',
+  [(LIB, 'pub fn recv(&self) -> Result<T, ReceiveError>', """            if size_of::<T>() > size_of::<*mut T>() {
+                Ok(unsafe { ret.assume_init() })
+            } else {
+                Ok(unsafe { sig.assume_init() })
+            }""", """            Ok(unsafe { take_received(ret, &sig) })"""),
+   (LIB, 'pub fn recv_timeout', """            if size_of::<T>() > size_of::<*mut T>() {
+                Ok(unsafe { ret.assume_init() })
+            } else {
+                Ok(unsafe { sig.assume_init() })
+            }""", """            Ok(unsafe { take_received(ret, &sig) })"""),
+   (LIB, 'const UNBOUNDED_STARTING_SIZE', 'const UNBOUNDED_STARTING_SIZE: usize = 32;', """const UNBOUNDED_STARTING_SIZE: usize = 32;
+
+/// Safety: the signal must have reported a successful hand-off
+#[inline(always)]
+unsafe fn take_received<T>(ret: MaybeUninit<T>, sig: &Signal<T>) -> T {
+    if size_of::<T>() > size_of::<*mut T>() {
+        ret.assume_init()
+    } else {
+        sig.assume_init()
+    }
+}""")])
+b('drop_early_return', 'Drop returns early when the count is already zero',
+  [(LIB, 'impl<T> Drop for Sender<T>', """        if internal.send_count > 0 {
+            internal.send_count -= 1;
+            if internal.send_count == 0 && internal.recv_count != 0 {
+                internal.terminate_signals();
+            }
+        }""", """        if internal.send_count == 0 {
+            return;
+        }
+        internal.send_count -= 1;
+        if internal.send_count == 0 && internal.recv_count != 0 {
+            internal.terminate_signals();
+        }""")])
+b('wait_while_loop', 'Signal::wait parks in a while loop on the state',
+  [(SIG, 'pub(crate) fn wait(&self)', """                    Ok(_) => loop {
+                        std::thread::park();
+                        let v = self.state.load(Ordering::Acquire);
+                        if v < LOCKED {
+                            return v == UNLOCKED;
+                        }
+                    },""", """                    Ok(_) => {
+                        let mut v = self.state.load(Ordering::Acquire);
+                        while v >= LOCKED {
+                            std::thread::park();
+                            v = self.state.load(Ordering::Acquire);
+                        }
+                        v == UNLOCKED
+                    }""")])
+b('wake_match_cas', 'wake matches on the CAS result instead of is_err()',
+  [(SIG, 'unsafe fn wake', """                if (*this)
+                    .state
+                    .compare_exchange(LOCKED, state, Ordering::Release, Ordering::Acquire)
+                    .is_err()
+                {
+                    let thread = (*waker.get()).as_ref().unwrap().clone();
+                    (*this).state.store(state, Ordering::Release);
+                    thread.unpark();
+                }""", """                match (*this)
+                    .state
+                    .compare_exchange(LOCKED, state, Ordering::Release, Ordering::Acquire)
+                {
+                    Ok(_) => {}
+                    Err(_) => {
+                        let thread = (*waker.get()).as_ref().unwrap().clone();
+                        (*this).state.store(state, Ordering::Release);
+                        thread.unpark();
+                    }
+                }""")])
+b('send_early_returns', 'send uses early returns instead of an if/else chain',
+  [(LIB, 'pub fn send(&self, data: T)', """        if let Some(first) = internal.next_recv() {
+            drop(internal);
+            // Safety: it's safe to send to owned signal once
+            unsafe { first.send(data) }
+            Ok(())
+        } else if internal.queue.len() < internal.capacity {
+            // Safety: MaybeUninit is acting like a ManuallyDrop
+            internal.queue.push_back(data);
+            Ok(())
+        } else {""", """        if let Some(first) = internal.next_recv() {
+            drop(internal);
+            // Safety: it's safe to send to owned signal once
+            unsafe { first.send(data) }
+            return Ok(());
+        }
+        if internal.queue.len() < internal.capacity {
+            // Safety: MaybeUninit is acting like a ManuallyDrop
+            internal.queue.push_back(data);
+            return Ok(());
+        }
+        {""")])
 
 
 def apply(text, marker, old, new, fname):
